@@ -280,9 +280,13 @@ func runC06(c *vx.Ctx) {
 		}
 	}
 	c06Sched(c)
+	c06Race(c)
 }
 
 func replayC06(c *vx.Ctx, v vx.Violation) string {
+	if v.Part == "trim-race" {
+		return replayC06Race(c)
+	}
 	core.VScaleParams(core.VR1)
 	raw, _ := jsonMarshal(v.Replay)
 	var cs c06Case
